@@ -1,4 +1,5 @@
 import Driver.Slots
+import Driver.Cli
 /-!
 Line-protocol driver: one request per stdin line, one answer per stdout line.
 Unknown or ill-formed requests are answered `bad-op` (never defaulted).
@@ -7,7 +8,8 @@ Each `Driver/X.lean` contributes `(commands, handler)`; `dispatch` picks by the 
 open SPD
 
 def handlers : List (List String × (List String → String)) := [
-  (slotsCmds, handleSlots)
+  (slotsCmds, handleSlots),
+  (cliCmds, handleCli)
 ]
 
 def dispatch (toks : List String) : String :=
